@@ -440,7 +440,7 @@ def source_crosscheck(ctx, t):
         if rows:
             vecs[m.group(1)] = rows
     bif2 = {m.group(1): m.group(2) for m in re.finditer(r"func (BIF_\w+)\(input1, input2 \*mlrval\.Mlrval\) \*mlrval\.Mlrval \{\n\treturn \(?(\w+)\[input1\.Type\(\)\]\[input2\.Type\(\)\]\)?\(input1, input2\)", src)}
-    bif1 = {m.group(1): m.group(2) for m in re.finditer(r"func (BIF_\w+)\(input1 \*mlrval\.Mlrval\) \*mlrval\.Mlrval \{\n\treturn (\w+)\[input1\.Type\(\)\]\(input1", src)}
+    bif1 = {m.group(1): m.group(2) for m in re.finditer(r"func (BIF_\w+)\(input1 \*mlrval\.Mlrval\) \*mlrval\.Mlrval \{\n(?:\tif input1\.Type\(\) == mlrval\.MT_INT \{\n\t\treturn \w+\(input1\)\n\t\}\n)?\treturn (\w+)\[input1\.Type\(\)\]\(input1", src)}   # optional int kernel guard (abs/ceil/floor/round/sgn since f1e1e9093): the INT cell is a kernel either way
     bad, ncell, nmat = [], 0, 0
     for op, bif in OP_BIF2.items():
         mat = mats.get(bif2.get(bif, ""))
